@@ -113,7 +113,13 @@ func readerTraceMain(args []string) int {
 			if msg := sameMatches(a, bm); msg != "" {
 				rr.Diff = msg
 			}
-			if r.Mode == "NEW" {
+			single := true // one command: its matches are in increasing order
+			for i := 1; i < len(sms); i++ {
+				if sms[i].Offset.Start < sms[i-1].Offset.End {
+					single = false
+				}
+			}
+			if r.Mode == "NEW" && single {
 				// the written file must be the splice computed from the in-memory run
 				got, _ := os.ReadFile(fn + ".vored")
 				want := spliceOf(content, sms)
